@@ -9,6 +9,10 @@ open Gms.Proto Gms.Triggers
                                                 order; <cap> = capacity of the slice applyTriggers hands to OrderTriggers
   <trig> ::= (<name> b|a n|p|f <ref> <setB|->)
   <dml>  ::= (insert (a b)*) | (update k lo) | (delete lo)
+           | (insertr <form> (a10 b10)*)      values as written, in tenths (26 = 2.6); <form> = how the harness
+                                              renders them (d literals, s strings, t INSERT … SELECT from a DECIMAL table)
+           | (updater k10 lo)                 UPDATE t SET b = b + k10/10 WHERE a >= lo
+  audit cells and observations show values as decimals with at most one fractional digit ("2.6", "-0.5", "3")
 -/
 
 def parseTrig : Sexp → Option Trig
@@ -31,9 +35,15 @@ def parseRow : Sexp → Option Row
   | .list [a, b] => do let a ← a.int?; let b ← b.int?; pure ⟨a, b⟩
   | _ => none
 
+def parseRaw : Sexp → Option RawRow
+  | .list [a, b] => do let a ← a.int?; let b ← b.int?; pure ⟨a, b⟩
+  | _ => none
+
 def parseDml : Sexp → Option Dml
-  | .list (.atom "insert" :: rows) => (rows.mapM parseRow).map .insert
-  | .list [.atom "update", k, lo] => do let k ← k.int?; let lo ← lo.int?; pure (.update k lo)
+  | .list (.atom "insert" :: rows) => (rows.mapM parseRow).map (fun rs => .insert (rs.map Row.raw))
+  | .list (.atom "insertr" :: .atom _ :: rows) => (rows.mapM parseRaw).map .insert
+  | .list [.atom "update", k, lo] => do let k ← k.int?; let lo ← lo.int?; pure (.update (10 * k) lo)
+  | .list [.atom "updater", k, lo] => do let k ← k.int?; let lo ← lo.int?; pure (.update k lo)
   | .list [.atom "delete", lo] => lo.int?.map .delete
   | _ => none
 
@@ -41,9 +51,14 @@ def names (ts : List Trig) : String := ",".intercalate (ts.map fun t => toString
 
 def showSplit (o : List Trig) : String := names (befores o) ++ "|" ++ names (afters o)
 
+/-- tenths as a decimal: 26 ↦ "2.6", -5 ↦ "-0.5", 30 ↦ "3" -/
+def showT (x : Int) : String :=
+  let m := x.natAbs
+  (if x < 0 then "-" else "") ++ toString (m / 10) ++ (if m % 10 == 0 then "" else "." ++ toString (m % 10))
+
 def showOpt : Option Int → String
   | none => "N"
-  | some n => toString n
+  | some n => showT n
 
 def showAudit (a : Audit) : String :=
   s!"{a.n}:{showOpt a.oa}:{showOpt a.ob}:{showOpt a.na}:{showOpt a.nb}"
@@ -79,6 +94,7 @@ def handle (p : List Sexp) : String :=
           let region :=
             if aliasVisible cap ts && orderImpl cap ts != specOrder ts then "order_input_aliasing"
             else if ri.outcome == .dupKey && !ri.audit.isEmpty then "failed_statement_keeps_trigger_effects"
+            else if (match orderImpl cap ts with | some o => unconvertedSeen o d | none => false) then "before_insert_new_unconverted"
             else "-"
           answer impl spec region
     | _, _, _, _ => answer "bad-case"
